@@ -2,7 +2,7 @@
     (spyne/server/_base.py) and WsgiApplication.handle_rpc (spyne/server/wsgi.py) around the
     protocol functions of Xml.v / Dict.v.  Definitions only.
 
-    The [except] clauses and the statement skeletons are the ones Gen/Pipeline.v reads from the
+    The [except] clauses and the statement skeletons are the ones Gen/ReqPipe.v reads from the
     source.  A request ends in exactly one of three ways. *)
 From SpyneV Require Export C10.Xml C10.Dict.
 
